@@ -20,7 +20,7 @@ Definition tail_mod4 (t : tail) : bool :=
       let ew := fwidth elt in
       (Nat.eqb (Nat.modulo ew 4) 0 && Nat.eqb pm 1)
       || (Nat.eqb pm 2 && Nat.eqb (Nat.modulo ew 4) 2 && Nat.eqb (Nat.modulo pk 4) 2)
-  | TTextEof mx al => Nat.eqb al 4 && Nat.eqb (Nat.modulo mx 4) 0
+  | TTextEof mx al _ => Nat.eqb al 4 && Nat.eqb (Nat.modulo mx 4) 0
   end.
 Definition size4 (l : layout) : bool :=
   Nat.eqb (Nat.modulo (2 + fwidth (fixed l)) 4) 0 && tail_mod4 (ltail l) && tail_align_ok (ltail l).
